@@ -24,7 +24,7 @@ from functools import reduce
 import numpy as np
 
 # This Package modules
-from PseudoNetCDF.camxfiles.timetuple import timeadd, timerange
+from PseudoNetCDF.camxfiles.timetuple import timeadd, timerange, rolldate
 from PseudoNetCDF.camxfiles.FortranFileUtil import writeline, Asc2Int
 from PseudoNetCDF._getwriter import registerwriter
 
@@ -169,6 +169,8 @@ def ncf2uamiv(ncffile, outpath):
         date_e = date_s.copy()
         time_e = time_s.copy() + tincr
         date_e += (time_e // 24).astype('i')
+        # the day after 31 Dec is day 1 of the next year
+        date_e = rolldate(date_e)
         time_e -= (time_e // 24) * 24
     time_hdr['ibdate'] = date_s
     time_hdr['btime'] = time_s
